@@ -1140,12 +1140,13 @@ func runCheck(mode string, args []string) {
 			"transitions":                   nDecis,
 			"traces_validated_against_impl": matched,
 			"samples":                       samples,
-			"obligations":                   st.assertQ + st.assertConcTrue + st.assertConcFalse,
-			"discharged":                    st.assertUns + st.assertConcTrue,
+			"obligations":                   st.assertQ + st.assertConcTrue + st.assertConcFalse + nPaths - nDead,
+			"discharged":                    st.assertUns + st.assertConcTrue + nOK,
+			"path_outcome_obligations":      nPaths - nDead,
 			"assertion_queries":             st.assertQ,
 			"assertion_queries_unsat":       st.assertUns,
 			"assertions_decided_by_path":    st.assertConcTrue + st.assertConcFalse,
-			"explanation": "bounded symbolic model checking of the real code: go/ssa of the current /repo tree is executed symbolically by gosmt; states = completed feasible paths (each is one class of inputs decided by the solver for all values inside it), transitions = branch/shape decisions taken, obligations = assertion instances over all paths: either a solver query (pc AND NOT assertion; assertion_queries) or an assertion whose condition is already a constant on its path because the branch decisions that fix it were each decided by a solver feasibility query (assertions_decided_by_path); discharged = unsat answers + constants true, traces_validated = per-path solver witnesses re-executed on the natively compiled code with identical observables",
+			"explanation": "bounded symbolic model checking of the real code: go/ssa of the current /repo tree is executed symbolically by gosmt; states = completed feasible paths (each is one class of inputs decided by the solver for all values inside it), transitions = branch/shape decisions taken, obligations = assertion instances over all paths: either a solver query (pc AND NOT assertion; assertion_queries) or an assertion whose condition is already a constant on its path because the branch decisions that fix it were each decided by a solver feasibility query (assertions_decided_by_path); discharged = unsat answers + constants true; in addition every feasible path carries one outcome obligation (it must end normally: no PANIC, UNWIND, DEADLOCK or unsupported construct), discharged by an OK outcome (path_outcome_obligations), traces_validated = per-path solver witnesses re-executed on the natively compiled code with identical observables",
 			"exhaustive":             !st.truncated && nUnsup == 0 && nAbort == 0 && st.unknown == 0,
 			"truncated_by_limit":     st.truncated,
 			"paths_total":            nPaths,
